@@ -440,3 +440,31 @@ def digest(tr):
                                          (st["decl"] or {}).get("clobbers_text"))).encode())
     h.update(repr(tr["mk"]).encode())
     return h.hexdigest()
+
+
+def distinct_sites(tr):
+    """one representative per distinct (instructions, operand lists)"""
+    seen, out = set(), []
+    for st in tr["sites"]:
+        d = st["decl"] or {}
+        key = (tuple(st["coq"]), tuple(d.get("outs", [])), tuple(d.get("ins", [])), tuple(d.get("clobs", [])),
+               d.get("mem"), d.get("cc"))
+        if key not in seen:
+            seen.add(key)
+            out.append(st)
+    return out
+
+
+if __name__ == "__main__":
+    # python3 tools/translate_ctx.py --pinned : regenerate coq/Ctx/CtxAsmPinned.v (a committed snapshot of the
+    # distinct sites of the tree at hand, -O0; used only for the non-vacuity Examples of Properties_C03.v)
+    import sys
+    if "--pinned" in sys.argv:
+        tr = translate(os.path.join(vlib.BUILD, "C03", "pin"), ["-O0"])
+        tr["sites"] = distinct_sites(tr)
+        txt = coq_data(tr, "(** Snapshot of the distinct context-switch asm statements of the pinned tree (gcc -S -O0),\n"
+                           "    written by `python3 tools/translate_ctx.py --pinned`.  Used only for the Examples of\n"
+                           "    Properties_C03.v; the check regenerates the data from the current tree on every run\n"
+                           "    (build/C03/gen/CtxAsmGen.v). *)")
+        open(os.path.join(vlib.COQ, "Ctx", "CtxAsmPinned.v"), "w").write(txt)
+        print("wrote coq/Ctx/CtxAsmPinned.v with %d sites" % len(tr["sites"]))
